@@ -13,7 +13,10 @@ Every generator is observed twice on the same ELFFile: consumed at once, and con
 time while a consumer drawn by the generator uses the stream before each next() (seeks, data() of
 other sections, header re-reads, another note / stab walk in lock step).  The model carries the
 stream cursor; it is run under the cursor positions recorded at each resumption (theorems
-C14_notes_cursor_free / C14_stabs_cursor_free: the yields do not depend on them)."""
+C14_notes_cursor_free / C14_stabs_cursor_free: the yields do not depend on them).
+Kind 'multi': one ELFFile with several adjacent note sections and the PT_NOTE spanning them; the views
+are walked in drawn orders on that one object and each is compared with its own extent (theorems
+C14_sub_extent_exact / C14_spanning_extent_concat)."""
 import io, struct
 from tools.lib.framework import impl_call
 from tools.lib.sx import canon as sx_canon
@@ -52,7 +55,10 @@ RULE = ('cases: abstract note extents drawn from the seeded PRNG (0..8 notes; na
         'non-zero garbage; extent placed mid-file or at EOF at a random (unaligned) offset; every header field that does '
         'not locate the extent is drawn (typical / 0 / 1 / maximum / random of the field width): sh_flags (without '
         'SHF_COMPRESSED), sh_addr, sh_link, sh_info, sh_addralign, sh_entsize, p_flags, p_vaddr, p_paddr, p_memsz, '
-        'p_align; stab records with n_type N_UNDF (unit headers, any n_desc) anywhere in the table; each walk is also consumed one yield at a time under a drawn consumer schedule (cyclic list of: seek '
+        'p_align; one file with 2-3 adjacent note sections (also empty ones) under one spanning PT_NOTE, the views walked on the '
+        'same ELFFile in drawn orders with repetitions (section first / segment first / shuffled) and in lock step, each '
+        'compared with its own extent; note tables and a stab table longer than 64 KiB (one big descriptor crossing the '
+        'boundary, ~2800 small notes, 5500-6000 stab records); stab records with n_type N_UNDF (unit headers, any n_desc) anywhere in the table; each walk is also consumed one yield at a time under a drawn consumer schedule (cyclic list of: seek '
         'to a header / extent / EOF / past-EOF position, data() of .stab/.note/.shstrtab, section header re-read, a '
         'second walk of the other view one note ahead or of the stab table in lock step); stab tables of 0..20 records, and every count 0..5 under sh_entsize 0, 12, 20, 1, 6, 24, 13, the '
         'table size, one more, the maximum; '
@@ -86,29 +92,39 @@ def _sched(layout):
     return list(layout[4]) if len(layout) >= 5 else []
 
 
-def plan(is64, nlen, slen, pre_pad, eof):
-    """where everything goes: dict(phoff, shoff, note_off, stab_off, str_off, total)"""
+def plan(is64, nlens, slen, pre_pad, eof):
+    """where everything goes; nlens = the sizes of the adjacent note sections (the segment spans them all):
+    dict(phoff, shoff, note_off, note_offs, stab_off, str_off, total, k)"""
     ehsize, phentsize, shentsize = (64, 56, 64) if is64 else (52, 32, 40)
+    k = len(nlens)
     off = ehsize + phentsize
-    d = dict(phoff=ehsize, shentsize=shentsize)
+    d = dict(phoff=ehsize, shentsize=shentsize, k=k)
+    def notes_at(off):
+        d['note_off'] = off
+        d['note_offs'] = []
+        for n in nlens:
+            d['note_offs'].append(off)
+            off += n
+        return off
     if eof:
         # headers and the other sections first, the note extent last (ends at EOF)
         d['str_off'] = off; off += len(SHSTR)
-        d['shoff'] = off; off += 4 * shentsize
+        d['shoff'] = off; off += (3 + k) * shentsize
         d['stab_off'] = off; off += slen
         off += pre_pad
-        d['note_off'] = off; off += nlen
+        off = notes_at(off)
     else:
         off += pre_pad
-        d['note_off'] = off; off += nlen
+        off = notes_at(off)
         d['stab_off'] = off; off += slen
         d['str_off'] = off; off += len(SHSTR)
-        d['shoff'] = off; off += 4 * shentsize
+        d['shoff'] = off; off += (3 + k) * shentsize
     d['total'] = off
     return d
 
 
-SHSTR = b'\0.note\0.stab\0.shstrtab\0'
+SHSTR = b'\0.note\0.stab\0.shstrtab\0.note.1\0.note.2\0'
+NOTE_NAMES = [('.note', 1), ('.note.1', 23), ('.note.2', 31)]       # section name, offset in SHSTR
 
 
 def shdr_fields(name, typ, off, size, shf):
@@ -122,22 +138,24 @@ def phdr_fields(off, size, phf):
     return [4, flags, off, vaddr, paddr, size, size if memsz == 'filesz' else memsz, align]
 
 
-def mk_elf(le, is64, e_type, e_machine, notes, stab, pre_pad, eof, pl, ph, sh_note, sh_stab):
+def mk_elf(le, is64, e_type, e_machine, notes, stab, pre_pad, eof, pl, ph, sh_notes, sh_stab):
     """ELF header, null and .shstrtab section headers are packed here; the program header and the
-    .note / .stab section headers are the bytes of the Coq encoders (every field drawn by the generator)"""
+    note / .stab section headers (sections: null, the k adjacent note sections, .stab, .shstrtab) are the
+    bytes of the Coq encoders (every field drawn by the generator)"""
     E = '<' if le else '>'
     ehsize, phentsize, shentsize = (64, 56, 64) if is64 else (52, 32, 40)
+    k = pl['k']
     ident = b'\x7fELF' + bytes([2 if is64 else 1, 1 if le else 2, 1, 0, 0]) + b'\0' * 7
     if is64:
-        eh = ident + struct.pack(E + 'HHIQQQIHHHHHH', e_type, e_machine, 1, 0, pl['phoff'], pl['shoff'], 0, ehsize, phentsize, 1, shentsize, 4, 3)
+        eh = ident + struct.pack(E + 'HHIQQQIHHHHHH', e_type, e_machine, 1, 0, pl['phoff'], pl['shoff'], 0, ehsize, phentsize, 1, shentsize, 3 + k, 2 + k)
         def sh(name, typ, o, sz):
             return struct.pack(E + 'IIQQQQIIQQ', name, typ, 0, 0, o, sz, 0, 0, 1, 0)
     else:
-        eh = ident + struct.pack(E + 'HHIIIIIHHHHHH', e_type, e_machine, 1, 0, pl['phoff'], pl['shoff'], 0, ehsize, phentsize, 1, shentsize, 4, 3)
+        eh = ident + struct.pack(E + 'HHIIIIIHHHHHH', e_type, e_machine, 1, 0, pl['phoff'], pl['shoff'], 0, ehsize, phentsize, 1, shentsize, 3 + k, 2 + k)
         def sh(name, typ, o, sz):
             return struct.pack(E + 'IIIIIIIIII', name, typ, 0, 0, o, sz, 0, 0, 1, 0)
-    assert len(ph) == phentsize and len(sh_note) == shentsize and len(sh_stab) == shentsize
-    shs = sh(0, 0, 0, 0) + sh_note + sh_stab + sh(13, 3, pl['str_off'], len(SHSTR))
+    assert len(ph) == phentsize and len(sh_notes) == k and all(len(x) == shentsize for x in sh_notes) and len(sh_stab) == shentsize
+    shs = sh(0, 0, 0, 0) + b''.join(sh_notes) + sh_stab + sh(13, 3, pl['str_off'], len(SHSTR))
     filler = bytes((0xa5 + i) & 0xff or 1 for i in range(pre_pad))
     if eof:
         img = eh + ph + SHSTR + shs + stab + filler + notes
@@ -417,6 +435,38 @@ def gen(ctx):
                 n = _gen_note(rng, cfgd(c), name=rng.choice([b'CORE', b'CORE', b'LINUX', 'none']), force_type=ty)
                 extra = [_gen_note(rng, cfgd(c)) for _ in range(rng.choice([0, 1, 2]))]
                 cases.append(('notes', [c, [n] + extra if rng.random() < 0.5 else extra + [n], layout_pick(c[1])]))
+    # --- one file, several adjacent note sections under one spanning PT_NOTE (the usual linker layout: the segment
+    #     starts where the first section starts and is larger); the views are walked on the SAME ELFFile in a
+    #     drawn order with repetitions, each compared with its own extent
+    for j in range(40 * T):
+        le, is64 = _cfgs()[j % 4]
+        c = [le, is64, rng.choice(['ET_CORE', 'ET_DYN', 'ET_EXEC', 'ET_DYN']), rng.choice(list(EM))]
+        k = rng.choice([2, 2, 3])
+        secs = [[_gen_note(rng, cfgd(c)) for _ in range(rng.choice([0, 1, 1, 2, 3] if j % 5 == 4 else [1, 1, 2, 3]))] for _ in range(k)]
+        views = ['seg'] + list(range(k))
+        if j % 4 == 0:
+            order = [0, 'seg']                  # first section, then the segment that starts at the same offset
+        elif j % 4 == 1:
+            order = ['seg', 0]
+        else:
+            order = views[:]
+            rng.shuffle(order)
+        order += [rng.choice(views) for _ in range(rng.choice([1, 2, 3]))]
+        if j % 4 >= 2:
+            order = order + [v for v in views if v not in order]
+        lay = layout_pick(is64)[:4]
+        cases.append(('multi', [c, secs, lay, order]))
+    # --- tables longer than 64 KiB (block-wise readers): one big-descriptor table and one many-notes table
+    for j in range(ctx.scale(1, 3)):
+        c = cfg_pick()
+        def rawnote(dlen):
+            nm = _garbage(rng, rng.choice([1, 3, 4, 6]))
+            return [nm, _garbage(rng, _pad(4, len(nm) + 1)), 0x4000 + dlen % 7, ['raw', _bytes(rng, dlen)], _garbage(rng, _pad(4, dlen))]
+        big = [rawnote(rng.choice([40001, 39998])), rawnote(rng.choice([25531, 25600])), rawnote(5), _gen_note(rng, cfgd(c)), rawnote(0)]
+        cases.append(('notes', [c, big, [rng.choice([0, 3]), j % 2 == 1, DEFAULT_SHF, DEFAULT_PHF, [['seek', 0x10000], ['data', '.stab']]]]))
+        c = cfg_pick()
+        many = [rawnote(rng.choice([0, 1, 2, 3, 4, 5, 8, 13])) for _ in range(rng.randint(2700, 2900))]
+        cases.append(('notes', [c, many, [rng.choice([0, 1]), False, DEFAULT_SHF, DEFAULT_PHF, [['seek', 0x10000 - 2], ['other']]]]))
     # --- large names / descriptors
     for _ in range(6 * T):
         c = cfg_pick()
@@ -446,6 +496,12 @@ def gen(ctx):
         for k in [0, 1, 2, 3, 20] + [rng.randint(0, 12) for _ in range(6 * T)]:
             c = [le, is64, rng.choice(['ET_REL', 'ET_EXEC', 'ET_DYN', 'ET_CORE', 'raw']), rng.choice(list(EM))]
             cases.append(('stabs', [c, [stab_pick() for _ in range(k)], layout_pick(is64, STAB_ENTSIZES)]))
+    # a table longer than 64 KiB: more than 5461 records (0x10000 is not a multiple of 12)
+    for j in range(ctx.scale(1, 4)):
+        le, is64 = _cfgs()[(j + rng.randint(0, 3)) % 4]
+        c = [le, is64, 'ET_REL', rng.choice(list(EM))]
+        cases.append(('stabs', [c, [stab_pick() for _ in range(rng.randint(5500, 6000))],
+                                [rng.choice([0, 1, 3]), j % 2 == 1, shf_pick(is64, STAB_ENTSIZES), DEFAULT_PHF, [['seek', 0x10000], ['other']]]]))
     # --- roundup
     for b in (0, 1, 2, 3, 4, 12):
         for n in [0, 1, 2, 3, 4, 5, 7, 8, 9, 15, 16, 17, 4095, 4096, 4097, 2 ** 32 - 1, 2 ** 32, 2 ** 64 - 3] + \
@@ -597,6 +653,25 @@ def _impl_notes(img, sched=()):
     return obs, _cfg_of_file(f), tells
 
 
+def _impl_multi(img, k, order):
+    """ONE ELFFile with k adjacent note sections and the segment spanning them: the views are walked in the
+    given order (repetitions allowed), then the segment and the first section (same start, different size) in
+    lock step.  -> (observations, cursor schedules of the two lock-step walks)"""
+    from elftools.elf.sections import NoteSection
+    from elftools.elf.segments import NoteSegment
+    f = _open(img)
+    secs = [f.get_section_by_name(n) for n, _ in NOTE_NAMES[:k]]
+    seg = next(f.iter_segments())
+    assert all(isinstance(x, NoteSection) for x in secs) and isinstance(seg, NoteSegment)
+    obs = [_collect((seg if v == 'seg' else secs[v]).iter_notes(), _onote) for v in order]
+    tells = []
+    for view, other in ((seg, secs[0]), (secs[0], seg)):
+        o, t = _stepwise(f, view.iter_notes(), _onote, [['other']], {'other': _Walker(other.iter_notes)})
+        obs.append(o)
+        tells.append(t)
+    return obs, tells
+
+
 def _impl_stabs(img, sched=()):
     from elftools.elf.sections import StabSection
     f = _open(img)
@@ -659,6 +734,10 @@ def evaluate(ctx, cases):
         if kind in ('notes', 'malformed'):
             reqs.append(['enc_notes', dcfg(a[0]), a[1]])
             reqs.append(['wf_notes', dcfg(a[0]), a[1]])
+        elif kind == 'multi':
+            allnotes = [n for sec in a[1] for n in sec]
+            reqs.append(['enc_notes', dcfg(a[0]), allnotes])
+            reqs.append(['wf_notes', dcfg(a[0]), allnotes])
         elif kind == 'stabs':
             reqs.append(['enc_stabs', a[0][0], a[1]])
             reqs.append(['wf_stabs', a[0][0], a[1]])
@@ -666,7 +745,10 @@ def evaluate(ctx, cases):
             reqs.append(['pad_to', 2 ** a[1], a[0]])
             reqs.append(['roundup', a[0], a[1]])
     ans = drv.batch(reqs)
-    # ---- pass 2: place everything, encode the three headers that describe the extents through the Coq spec
+    # the sizes of the sections of a multi-section table: each section encoded on its own
+    reqs = [['enc_notes', dcfg(a[0]), sec] for kind, a in cases if kind == 'multi' for sec in a[1]]
+    sec_enc = iter(drv.batch(reqs) if reqs else [])
+    # ---- pass 2: place everything, encode the headers that describe the extents through the Coq spec
     plans = []
     reqs = []
     for i, (kind, a) in enumerate(cases):
@@ -677,20 +759,26 @@ def evaluate(ctx, cases):
         c = a[0]
         pre_pad, eof, shf, phf = _hdrs(a[2])
         if kind == 'notes':
-            nbytes, sbytes = enc, b'\x11' * 12
+            nlist, sbytes = [enc], b'\x11' * 12
+        elif kind == 'multi':
+            nlist, sbytes = [next(sec_enc) for _ in a[1]], b'\x11' * 12
+            assert b''.join(nlist) == enc
         elif kind == 'malformed':
             ext, size = _mangle(a[4], a[3], enc, c[0])
-            nbytes, sbytes = ext[:size], b'\x11' * 12
+            nlist, sbytes = [ext[:size]], b'\x11' * 12
         else:
-            nbytes, sbytes = b'', enc
-        pl = plan(c[1], len(nbytes), len(sbytes), pre_pad, eof)
+            nlist, sbytes = [b''], enc
+        nbytes = b''.join(nlist)
+        pl = plan(c[1], [len(x) for x in nlist], len(sbytes), pre_pad, eof)
         stab_hdr = kind == 'stabs'
-        h_note = shdr_fields(1, 7, pl['note_off'], len(nbytes), DEFAULT_SHF if stab_hdr else shf)
+        h_notes = [shdr_fields(NOTE_NAMES[j][1], 7, pl['note_offs'][j], len(nlist[j]), DEFAULT_SHF if stab_hdr else shf)
+                   for j in range(len(nlist))]
         h_stab = shdr_fields(7, 1, pl['stab_off'], len(sbytes), shf if stab_hdr else DEFAULT_SHF)
         h_seg = phdr_fields(pl['note_off'], len(nbytes), phf)
         plans.append((pl, nbytes, sbytes, pre_pad, eof, shf, phf))
-        reqs += [['enc_phdr', c[0], c[1], h_seg], ['enc_shdr', c[0], c[1], h_note], ['enc_shdr', c[0], c[1], h_stab],
-                 ['wf_phdr', c[0], c[1], h_seg], ['wf_shdr', c[0], c[1], h_note], ['wf_shdr', c[0], c[1], h_stab]]
+        reqs += [['enc_phdr', c[0], c[1], h_seg], ['wf_phdr', c[0], c[1], h_seg]]
+        for h in h_notes + [h_stab]:
+            reqs += [['enc_shdr', c[0], c[1], h], ['wf_shdr', c[0], c[1], h]]
     hans = drv.batch(reqs)
     # ---- pass 3: assemble images, observe the implementation (this gives the cursor schedules of the stepwise
     #      walks), then ask the model under the same schedules and the expected observations
@@ -706,11 +794,13 @@ def evaluate(ctx, cases):
             continue
         c = a[0]
         pl, nbytes, sbytes, pre_pad, eof, shf, phf = plans[i]
-        ph_b, shn_b, shs_b, wf_p, wf_n, wf_s = hans[hpos:hpos + 6]
-        hpos += 6
+        k = pl['k']
+        hh = hans[hpos:hpos + 2 * (k + 2)]
+        hpos += 2 * (k + 2)
+        ph_b, shn_b, shs_b = hh[0], [hh[2 + 2 * j] for j in range(k)], hh[2 + 2 * k]
+        wf_h = all(bool(x) for x in hh[1::2])
         img = mk_elf(c[0], c[1], ET[c[2]], EM[c[3]], nbytes, sbytes, pre_pad, eof, pl, ph_b, shn_b, shs_b)
-        phoff, sh_note, sh_stab = pl['phoff'], pl['shoff'] + pl['shentsize'], pl['shoff'] + 2 * pl['shentsize']
-        wf_h = bool(wf_p) and bool(wf_n) and bool(wf_s)
+        phoff, sh_note, sh_stab = pl['phoff'], pl['shoff'] + pl['shentsize'], pl['shoff'] + (1 + k) * pl['shentsize']
         sched = _sched(a[2])
         if kind in ('notes', 'malformed'):
             got = impl_call(_impl_notes, img, sched)
@@ -726,6 +816,23 @@ def evaluate(ctx, cases):
             else:
                 w.update(n=4)
             work.append(w)
+        elif kind == 'multi':
+            order = list(a[3])
+            got = impl_call(_impl_multi, img, k, order)
+            impl, tells = got if isinstance(got, tuple) else (got, [[], []])
+            allnotes = [n for sec in a[1] for n in sec]
+            views = [(v, []) for v in order] + [('seg', tells[0]), (0, tells[1])]
+            for v, adv in views:        # model, then spec: each view against its OWN extent
+                if v == 'seg':
+                    reqs.append(['segment_notes', dcfg(c), img, phoff, adv])
+                else:
+                    reqs.append(['section_notes', dcfg(c), img, sh_note + v * pl['shentsize'], adv])
+            for v, adv in views:
+                if v == 'seg':
+                    reqs.append(['expected', dcfg(c), pl['note_off'], allnotes])
+                else:
+                    reqs.append(['expected', dcfg(c), pl['note_offs'][v], a[1][v]])
+            work.append(dict(img=img, impl=impl, sched=[], wf=bool(wf) and wf_h, n=2 * len(views), nv=len(views)))
         else:
             got = impl_call(_impl_stabs, img, sched)
             impl, tells = got if isinstance(got, tuple) else (got, [])
@@ -738,15 +845,26 @@ def evaluate(ctx, cases):
         r = ans2[pos:pos + w['n']]
         pos += w['n']
         ctx.bump('kind', kind)
-        if kind != 'roundup':
+        if kind not in ('roundup', 'multi'):
             for op in (w['sched'] or [['none']]):
                 ctx.bump('consumer_op_' + kind, op[0] if op[0] != 'data' else 'data ' + op[1])
+        if kind == 'multi':
+            nv = w['nv']
+            model = [ok(x) for x in r[:nv]]
+            spec = r[nv:]
+            ctx.bump('multi_sections', len(a[1]))
+            ctx.bump('multi_first_view', str(a[3][0]))
+            ctx.bump('multi_empty_section', any(len(x) == 0 for x in a[1]))
+            ctx.record(kind, a, impl=w['impl'], spec=spec, model=model, in_domain=w['wf'],
+                       nontrivial=len(a[1]) >= 2 and len(set(map(str, a[3]))) >= 2, key='notes-adjacent-extents')
+            continue
         if kind == 'notes':
             c, notes = a[0], a[1]
             eof = a[2][1]
             impl = w['impl']
             model = [ok(x) for x in r[:4]]
             spec = [r[4]] * 4
+            ctx.bump('extent_size', '>64KiB' if len(w['img']) > 0x10000 else '<=64KiB')
             ctx.bump('notes_per_extent', len(notes) if len(notes) < 6 else '6+')
             ctx.bump('cfg', '%s%d%s' % ('LE' if c[0] else 'BE', 64 if c[1] else 32, '-core' if c[2] == 'ET_CORE' else ''))
             ctx.bump('placement', 'eof' if eof else 'mid')
@@ -784,7 +902,7 @@ def evaluate(ctx, cases):
             key = 'stabs'
             if isinstance(impl, list) and len(impl) == 2 and sx_canon(impl[0]) == sx_canon(spec[0]) and sx_canon(impl) != sx_canon(spec):
                 key = 'stabs-interleaved'
-            ctx.bump('stabs_per_table', len(a[1]) if len(a[1]) < 6 else '6+')
+            ctx.bump('stabs_per_table', len(a[1]) if len(a[1]) < 6 else '6+' if len(a[1]) <= 5461 else '>64KiB')
             ent = w['shf'][5]
             ctx.bump('stab_sh_entsize', ent if ent in (0, 1, 12, 20) else 'divides' if ent and (12 * len(a[1])) % ent == 0
                      else 'above-size' if ent > 12 * len(a[1]) else 'other')
